@@ -362,9 +362,10 @@ PROPS = {
                 "stream requote: 1-3 pairs quoted 0-5 times a day in either direction over 1-4 dates with one or two zero/negative/tiny quotes placed alone, first, in the middle, last, "
                 "before/after/between same-direction or inverse quotes of their pair, twice, or re-quoted on an earlier/later date, file order by date, reversed or merged, same pipeline and monitors as days, "
                 "every 10th journal also through `knut balance -v V` (exit status and the invalid price error); "
+                "stream shared: one price history of 2-40 new commodities spread over 2-8 included files (siblings or nested) that all quote the same pairs in the same order on different dates, loaded 8x (16x thorough) by journal.FromPath under GOMAXPROCS 16/2/4/8, every load compared and monitored like a days case (priceOK(day) also on every load that differs), every 10th tree with one unit of every commodity booked through `knut balance -v V` (natural schedule and KNUT_VERIF_SEED, GOMAXPROCS 2/16: fails exactly for a zero price or an unconnected commodity); "
                 "stream dec: decimal arithmetic against shopspring. A class = (shape, size, reached bucket, redeclared?, V in graph?) resp. (shape, days bucket, nil day?, carried day?).",
         "assumptions": ["shopspring/decimal arithmetic and String() behave as the Rat model (sampled on every run by the dec stream)",
-                        "two declarations of the same unordered pair on one day are inserted in file order (in-process journal.Builder.Add order); concurrent file loading is C05/C19"],
+                        "two declarations of the same unordered pair on one day are inserted in file order (in-process journal.Builder.Add order); the order in which concurrently loaded files reach the builder is C05/C19 (stream shared never quotes a pair twice on one date)"],
     },
     "C14": {
         "lean": ["Knut.Properties.C14"],
